@@ -10,7 +10,10 @@ LEVEL = "exploration"
 LETTERS = (0.0, 1.0, 2.0, 5.0)
 CLIPS = [("none", None, None), ("min", 1.0, None), ("max", None, 2.0), ("both", 1.0, 2.0),
          ("nonbinding", -1.0, 9.0), ("collapsing", 7.0, 8.0), ("minfrac", 0.5, None),
-         ("zero-min", 0.0, None), ("zero-both", 0.0, 2.0), ("zero-max", -1.0, 0.0)]
+         ("zero-min", 0.0, None), ("zero-both", 0.0, 2.0), ("zero-max", -1.0, 0.0),
+         ("bothfrac", 0.5, 4.5)]
+# clip modes also run on the same data held in an integer array (ids, counts, ratings)
+INT_CLIPS = ("none", "minfrac", "both", "bothfrac")
 
 
 def value_arrays(maxlen):
@@ -72,12 +75,12 @@ def judge(values, nk, mode, clip_min, clip_max, default, weights, reduction, res
   return None
 
 
-def call(values, nk, mode, clip_min, clip_max, default, weights, reduction):
+def call(values, nk, mode, clip_min, clip_max, default, weights, reduction, dtype=np.float64):
   tf, tfl = bind.bind()
   from tensorflow_lattice.python import premade_lib
   try:
     r = premade_lib.compute_keypoints(
-        np.array(values, dtype=np.float64), num_keypoints=nk, keypoints=mode, clip_min=clip_min,
+        np.array(values, dtype=dtype), num_keypoints=nk, keypoints=mode, clip_min=clip_min,
         clip_max=clip_max, default_value=default,
         weights=None if weights is None else np.array(weights, dtype=np.float64),
         weight_reduction=reduction, feature_name="f")
@@ -106,6 +109,12 @@ def replay(case):
             case["reduction"], r, err)
   if j:
     return j[1]
+  if w is None and r is not None:
+    ri, erri = call(v, case["nk"], case["mode"], case["clip_min"], case["clip_max"], case["default"],
+                    w, case["reduction"], dtype=np.int64)
+    if ri is None or np.shape(ri) != np.shape(r) or not np.allclose(np.asarray(ri, dtype=np.float64), r, rtol=0, atol=1e-9):
+      return "integer-typed data gives %s, float data %s" % (erri if ri is None else np.asarray(ri).tolist(),
+                                                               np.asarray(r).tolist())
   U = expected_distinct(v, case["clip_min"], case["clip_max"], case["default"])
   if len(U) >= 2 and r is not None:
     e = pwl_accepts(r)
@@ -214,6 +223,14 @@ def work(ctx, item):
                 if len(U) >= 2:
                   nontriv += 1
                 j = judge(values, nk, mode, cmin, cmax, default, w, red, r, err)
+                if j is None and w is None and cname in INT_CLIPS:
+                  # the same data as an integer array gives the same keypoints
+                  ri, erri = call(values, nk, mode, cmin, cmax, default, w, red, dtype=np.int64)
+                  total += 1
+                  if (ri is None) != (r is None) or (r is not None and (
+                      np.shape(ri) != np.shape(r) or not np.allclose(np.asarray(ri, dtype=np.float64), r, rtol=0, atol=1e-9))):
+                    j = ("int-dtype", "integer-typed data gives %s, float data %s" % (
+                        erri if ri is None else np.asarray(ri).tolist(), err if r is None else np.asarray(r).tolist()))
                 if j is None and len(U) >= 2 and r is not None:
                   key = tuple(np.asarray(r).tolist())
                   if key not in pwl_checked:
